@@ -38,7 +38,8 @@ BLOCK_RULE_FUNCS = {
 }
 
 
-CONTAINER_RULE_FUNCS = {"blockquote": ("markdown_it.rules_block.blockquote.blockquote", "contracts.cons"), "list": ("markdown_it.rules_block.list.list_block", "contracts.listc")}
+CONTAINER_RULE_FUNCS = {"blockquote": ("markdown_it.rules_block.blockquote.blockquote", "contracts.cons"), "list": ("markdown_it.rules_block.list.list_block", "contracts.listc"),
+                        "reference": ("markdown_it.rules_block.reference.reference", "contracts.refdef")}
 
 
 def _monitored_md(state, cfg, containers=False):
